@@ -7,6 +7,7 @@
 package main
 
 import (
+	"context"
 	"errors"
 	"fmt"
 	"hash/fnv"
@@ -27,7 +28,9 @@ type policyErr struct {
 	kind ocifilter.AccessKind
 }
 
-func (e *policyErr) Error() string { return fmt.Sprintf("policy rejects %q for kind %d", e.repo, e.kind) }
+func (e *policyErr) Error() string {
+	return fmt.Sprintf("policy rejects %q for kind %d", e.repo, e.kind)
+}
 
 // decision function: verdict for (repo, kind)
 type policy func(repo string, kind ocifilter.AccessKind) bool
@@ -69,8 +72,8 @@ type world struct {
 	sel     bool // Select (true) or AccessChecker
 	pol     policy
 	recd    *rec.Recorder
-	wrapped *model.Env // wrapper(rec(mem))
-	twin    *model.Env // mem, called directly for allowed calls only
+	wrapped *model.Env  // wrapper(rec(mem))
+	twin    *model.Env  // mem, called directly for allowed calls only
 	hmap    map[int]int // wrapped handle -> twin handle
 	hist    []string
 	polLog  []need
@@ -297,6 +300,71 @@ func hashPolicy(seed uint64, kindSensitive bool) policy {
 	}
 }
 
+// listingWithItemOnError: the wrapped registry's catalog iterator ends by handing over a name together
+// with an error (the Seq contract allows an item with the error that ends the sequence; ocidebug passes
+// such pairs on). Whatever the wrapper does with the error, a name the policy rejects must not reach the
+// consumer - not even in the item that accompanies the error.
+func listingWithItemOnError(run *evid.Run, idx int) {
+	names := []string{"public/a", "public/b", "secret/c", "secret/d", "zz"}
+	rejected := map[string]bool{}
+	for i, n := range names {
+		if (idx>>i)&1 == 1 {
+			rejected[n] = true
+		}
+	}
+	last := names[idx%len(names)]
+	boom := errors.New("backend listing failed midway")
+	backend := &ociregistry.Funcs{
+		Repositories_: func(ctx context.Context, startAfter string) ociregistry.Seq[string] {
+			return func(yield func(string, error) bool) {
+				for _, n := range names {
+					if n == last {
+						yield(n, boom) // the item that accompanies the error
+						return
+					}
+					if !yield(n, nil) {
+						return
+					}
+				}
+			}
+		},
+	}
+	for _, sel := range []bool{false, true} {
+		var reg ociregistry.Interface
+		variant := "accesschecker"
+		if sel {
+			variant = "select"
+			reg = ocifilter.Select(backend, func(repo string) bool { return !rejected[repo] })
+		} else {
+			reg = ocifilter.AccessChecker(backend, func(repo string, kind ocifilter.AccessKind) error {
+				if rejected[repo] {
+					return &policyErr{repo, kind}
+				}
+				return nil
+			})
+		}
+		var seen []string
+		run.Eval(1)
+		if !run.Case("total/"+variant, map[string]any{"op": "Repositories over a backend that yields an item with its error"}, func() {
+			reg.Repositories(context.Background(), "")(func(name string, err error) bool {
+				seen = append(seen, name)
+				return err == nil
+			})
+		}) {
+			continue
+		}
+		run.Count("listings_with_item_on_error", 1)
+		run.Distinct(fmt.Sprintf("listing-item-on-error/%s/last-rejected=%v", variant, rejected[last]))
+		for _, n := range seen {
+			if rejected[n] {
+				run.Violation("rejected-in-listing/"+variant+"/item-with-error", fmt.Sprintf("the listing delivered %q, which the policy rejects (everything delivered: %q; the wrapped registry ended its sequence with (%q, error))", n, seen, last),
+					map[string]any{"variant": variant, "rejected": rejected, "delivered": seen, "backend_last_item": last})
+				break
+			}
+		}
+	}
+}
+
 func main() {
 	run := evid.Start("C12", "exploration")
 	run.SetRule("exhaustive core: every Interface method × every allow/deny assignment to the (repository, access kind) pairs it needs (both sides of a mount) × {AccessChecker, Select} × populated backend states; then random histories under random pure policies (hash of seed, name, kind) with the twin registry kept in step for allowed calls. " +
@@ -417,6 +485,10 @@ func main() {
 		run.Floor("denied/"+m, 1, int(run.Counter("denied/"+m)))
 		run.Floor("allowed/"+m, 1, int(run.Counter("allowed/"+m)))
 	}
+	for i := 0; i < 160; i++ {
+		listingWithItemOnError(run, i)
+	}
+	run.FloorCounter("listings_with_item_on_error", 100)
 	run.FloorCounter("listing_filtered_out", 10)
 	run.FloorCounter("star_name_calls", 20)
 	run.Finish()
